@@ -184,6 +184,11 @@ class Gen:
             _, op = it
             W += ["a"] + SPELL.get(op, op).split() + ["c", ";"]
             return ("Bin", op)
+        if k == "NEST":
+            _, shape = it
+            W += {"a+c*a": ["a", "+", "c", "*", "a", ";"], "(a+c)*a": ["(", "a", "+", "c", ")", "*", "a", ";"], "a*c+a": ["a", "*", "c", "+", "a", ";"],
+                  "a-c-a": ["a", "-", "c", "-", "a", ";"], "-a+c": ["-", "a", "+", "c", ";"], "f(a+c,a)": ["f", "(", "a", "+", "c", ",", "a", ")", ";"]}[shape]
+            return ("Nest", shape)
         if k == "UN":
             _, op = it
             W += [op, "a", ";"]
@@ -485,6 +490,29 @@ class H(semh.Base):
                     x = x[0]["operand"]["expression"]
                 if x.v != "Identifier" or self.ident_name(R, x[0]) != nm:
                     raise Violation(f"`{self.label()}`: {where}: {side} operand of `{e[1]}` is not `{nm}`")
+        elif k == "Nest":
+            if s.v != "ExprStmt":
+                raise bad()
+
+            def shape_of(te):
+                x = te["expression"]
+                while x.v == "Cast":
+                    x = x[0]["operand"]["expression"]
+                if x.v == "Identifier":
+                    return self.ident_name(R, x[0])
+                if x.v == "BinaryExpr":
+                    op = x[0]["op"]
+                    return (op[0].v if op.f else op.v, shape_of(x[0]["left"]), shape_of(x[0]["right"]))
+                if x.v == "UnaryExpr":
+                    return (x[0]["op"].v, shape_of(x[0]["operand"]))
+                if x.v == "SubroutineCall":
+                    return ("call", self.ident_name(R, x[0]["name"])) + tuple(shape_of(p) for p in (x[0]["params"] or []))
+                return x.v
+            want = {"a+c*a": ("Add", "a", ("Mul", "c", "a")), "(a+c)*a": ("Mul", ("Add", "a", "c"), "a"), "a*c+a": ("Add", ("Mul", "a", "c"), "a"),
+                    "a-c-a": ("Sub", ("Sub", "a", "c"), "a"), "-a+c": ("Add", ("Minus", "a"), "c"), "f(a+c,a)": ("call", "f", ("Add", "a", "c"), "a")}[e[1]]
+            got = shape_of(s[0])
+            if got != want:
+                raise Violation(f"`{self.label()}`: {where}: `{e[1]}` is stored as {got}, the source nests as {want}")
         elif k == "Un":
             if s.v != "ExprStmt":
                 raise bad()
@@ -595,6 +623,8 @@ def build_tasks(quick):
         add(f"op:{op}", [("OP", op), M])
     for op in "-!":
         add(f"unop:{op}", [("UN", op), M])
+    for shape in ("a+c*a", "(a+c)*a", "a*c+a", "a-c-a", "-a+c", "f(a+c,a)"):
+        add(f"nest-expr:{shape}", [("NEST", shape), M])
     for lit in ("int", "float", "true", "false", "bits", "timing", "timingf", "imag", "imagf", "hex", "bin"):
         add(f"lit:{lit}", [("LIT", lit), M])
     return T
